@@ -82,6 +82,11 @@ pub enum Op {
     EndStream,
     /// let the runtime run
     Pause,
+    /// send a message, then block the calling thread (no await) until the actor has handled it: a
+    /// spawned actor makes progress on its own, whatever the task that spawned it does
+    BlockingProbe,
+    /// arm a delayed_exec, halt the actor before the delay is over, wait: the body never runs
+    ExecAfterHalt,
 }
 
 #[derive(Clone, Debug, PartialEq, Eq, Hash, Serialize, Deserialize)]
@@ -120,6 +125,9 @@ struct Stats {
 }
 
 static STATS: Mutex<Option<Arc<Mutex<Stats>>>> = Mutex::new(None);
+/// progress observable without awaiting: handled `Add` messages, `delayed_exec` bodies that ran
+static ADDS: std::sync::atomic::AtomicU32 = std::sync::atomic::AtomicU32::new(0);
+static EXEC_RAN: std::sync::atomic::AtomicU32 = std::sync::atomic::AtomicU32::new(0);
 
 fn stats() -> Arc<Mutex<Stats>> {
     STATS.lock().unwrap().clone().expect("stats installed")
@@ -187,6 +195,21 @@ struct ArmDelayed(Duration);
 impl Message for ArmDelayed {
     type Response = ();
 }
+/// register a delayed_exec whose body records that it ran
+struct ArmExec(Duration);
+impl Message for ArmExec {
+    type Response = ();
+}
+impl Handler<ArmExec> for Counter {
+    async fn handle(&mut self, ctx: &mut Context<Self>, m: ArmExec) {
+        ctx.delayed_exec(
+            async {
+                EXEC_RAN.fetch_add(1, std::sync::atomic::Ordering::SeqCst);
+            },
+            m.0,
+        );
+    }
+}
 #[derive(Clone)]
 struct StopNow;
 impl Message for StopNow {
@@ -196,6 +219,7 @@ impl Message for StopNow {
 impl Handler<Add> for Counter {
     async fn handle(&mut self, _ctx: &mut Context<Self>, m: Add) {
         self.sum += m.0;
+        ADDS.fetch_add(1, std::sync::atomic::Ordering::SeqCst);
     }
 }
 impl Handler<Get> for Counter {
@@ -650,6 +674,37 @@ async fn run_program(p: &Program) -> Record {
                 hannibal::runtime::sleep(Duration::from_millis(2)).await;
                 "ok".into()
             }
+            Op::BlockingProbe => match &target {
+                Some(a) => {
+                    let before = ADDS.load(std::sync::atomic::Ordering::SeqCst);
+                    let s = g!(a.send(Add(0)));
+                    let mut seen = false;
+                    if s == "Ok(())" {
+                        // blocks this thread for up to 1.5 s; returns as soon as the actor got there
+                        for _ in 0..300 {
+                            if ADDS.load(std::sync::atomic::Ordering::SeqCst) != before {
+                                seen = true;
+                                break;
+                            }
+                            std::thread::sleep(Duration::from_millis(5));
+                        }
+                    }
+                    format!("{s}/{}", if seen || s != "Ok(())" { "progress" } else { "stalled" })
+                }
+                None => "skip".into(),
+            },
+            Op::ExecAfterHalt => match &target {
+                Some(a) => {
+                    ended = true;
+                    let before = EXEC_RAN.load(std::sync::atomic::Ordering::SeqCst);
+                    let s = g!(a.send(ArmExec(Duration::from_millis(60))));
+                    let e = g!(a.clone().halt());
+                    hannibal::runtime::sleep(Duration::from_millis(160)).await;
+                    let ran = EXEC_RAN.load(std::sync::atomic::Ordering::SeqCst) != before;
+                    format!("{s}/{e}/{}", if ran && s == "Ok(())" && e == "Ok(())" { "ran-after-halt" } else { "clean" })
+                }
+                None => "skip".into(),
+            },
         };
         rec.watchdog |= wd;
         rec.ops.push(out);
@@ -759,6 +814,13 @@ mod generate {
                 let at = (id as usize / 40) % 3;
                 ops.insert(at.min(ops.len()), Op::TimedTicks { with: (id / 40) % 2 == 1, k: 2, period_us: 300_000 });
             }
+            if id % 40 == 37 {
+                let at = (id as usize / 40) % 3;
+                ops.insert(at.min(ops.len()), Op::BlockingProbe);
+            }
+            if id % 40 == 33 {
+                ops.push(Op::ExecAfterHalt);
+            }
             if id % 40 == 27 {
                 let at = (id as usize / 40) % 3;
                 ops.insert(at.min(ops.len()), Op::TimedTicks { with: (id / 40) % 2 == 1, k: 20, period_us: 900 });
@@ -807,6 +869,12 @@ mod check {
         for (i, r) in recs.iter().enumerate() {
             if r.ops.iter().any(|o| o.contains("early")) {
                 return Some(format!("C18/timer_early/{}", RTS[i]));
+            }
+            if r.ops.iter().any(|o| o.contains("stalled")) {
+                return Some(format!("C18/no_progress_while_spawner_blocks/{}", RTS[i]));
+            }
+            if r.ops.iter().any(|o| o.contains("ran-after-halt")) {
+                return Some(format!("C18/timer_after_end/{}", RTS[i]));
             }
             if r.ops.iter().any(|o| o.contains("panic")) {
                 return Some(format!("C18/panic/{}", RTS[i]));
